@@ -82,6 +82,24 @@ type env struct {
 	shared entity.Id
 	other  entity.Id
 	own    map[string]entity.Id
+
+	// edits the cache has accepted (the editing call returned nil) whose Commit has not returned
+	// yet, per thread: what is at stake when the execution ends in a deadlock
+	accMu    sync.Mutex
+	accepted map[string]Issued
+}
+
+func (e *env) setAccepted(name string, is *Issued) {
+	e.accMu.Lock()
+	defer e.accMu.Unlock()
+	if e.accepted == nil {
+		e.accepted = map[string]Issued{}
+	}
+	if is == nil {
+		delete(e.accepted, name)
+		return
+	}
+	e.accepted[name] = *is
 }
 
 // RunOne executes scenario s once along the given choice prefix.
@@ -220,6 +238,25 @@ func RunOne(s Scenario, prefix []int, preempt bool, recordSites bool) (res Resul
 	}
 	if res.Verdict.Deadlock {
 		add("c18.deadlock", "deadlock:"+blockedSig(res.Verdict.Blocked), "no thread can run: %s", strings.Join(res.Verdict.Blocked, "; "))
+		// what the deadlock costs: an edit the cache had already accepted (the editing call returned
+		// nil) whose Commit can now never complete and which is not in git either is lost for good
+		e.accMu.Lock()
+		var stuck []Issued
+		for _, is := range e.accepted {
+			stuck = append(stuck, is)
+		}
+		e.accMu.Unlock()
+		sort.Slice(stuck, func(i, j int) bool { return stuck[i].Thread < stuck[j].Thread })
+		for _, is := range stuck {
+			v := world.ReadBug(e.repo, entity.Id(is.Bug))
+			inGit := false
+			for _, o := range v.OpIds {
+				inGit = inGit || o == is.OpId
+			}
+			if !inGit {
+				add("c18.lost", "accepted-edit-not-in-git-and-its-commit-blocked-for-ever/"+string(is.Call), "thread %s: %s on bug %s was accepted by the cache (op %s), its Commit then waits for ever and git does not hold the operation", is.Thread, is.Call, is.Bug, is.OpId)
+			}
+		}
 		res.Outcome = "deadlock"
 		return res, nil
 	}
@@ -530,7 +567,10 @@ func (e *env) do(name string, call Call) []Issued {
 			is.Err = "edit: " + err.Error()
 			return []Issued{is}
 		}
-		if err := b.Commit(); err != nil {
+		e.setAccepted(name, &is)
+		err = b.Commit()
+		e.setAccepted(name, nil)
+		if err != nil {
 			is.Err = "commit: " + err.Error()
 			return []Issued{is}
 		}
